@@ -4,4 +4,8 @@
 # /repo's working tree.
 set -e
 cd "$(dirname "$0")/lean"
-lake build RkVerif $(grep -o 'name = "drv_[a-z0-9_]*"' lakefile.toml | sed 's/name = "\(.*\)"/\1/')
+exes=""
+for f in Driver/C[0-9][0-9].lean; do
+  [ -f "$f" ] && exes="$exes drv_$(basename "$f" .lean | tr 'C' 'c')"
+done
+lake build RkVerif $exes
